@@ -18,7 +18,7 @@ from .c17 import build as build17
 
 KINDS = ["mesh", "mesh", "mesh", "points", "path2d", "path3d", "primitive", "scene", "voxel"]
 CLASSES = mx.CLASSES_3D + ["tiny_below", "tiny_above", "rot_below", "rot_above", "ppm_scale"]
-OPS = ["apply_transform", "apply_scale", "apply_translation", "inverse_pair", "compose_pair", "bad_shape", "read", "inplace_edit", "convert_unitless"]
+OPS = ["apply_transform", "apply_scale", "apply_translation", "inverse_pair", "compose_pair", "bad_shape", "read", "inplace_edit", "convert_unitless", "apply_obb", "voxel_query"]
 PREREADS = ["face_normals", "vertex_normals", "mass", "edges", "face_adjacency", "bounds", "area", "triangles", "paths", "discrete", "polygons", "length",
             "face_angles", "vertex_defects", "extents", "centroid", "scale", "area_faces", "edges_unique_length", "face_adjacency_angles", "bounding_box", "polygons_closed", "polygons_full", "convex_hull", "kdtree", "identifier"]
 # derived values that must equal those of an object freshly built from the transformed arrays (whatever was memoised before the call)
@@ -187,6 +187,10 @@ class C04(World):
                 # the eight corners of the box of filled cells, where the grid's transform puts them (own arithmetic)
                 st["corners"] = mx.apply(np.array(o.transform), box)
                 st["bounds"] = np.array(o.bounds)
+                # where the grid says its own cell centres are: in their own cells, all filled
+                st["own_cells"] = np.array(o.points_to_indices(np.array(o.points)))
+                st["own_filled"] = bool(np.all(o.is_filled(np.array(o.points))))
+                st["cells"] = idx.copy()
         return st
 
     def _matrix_for(self, kind, op, key="matrix"):
@@ -253,6 +257,43 @@ class C04(World):
                         if not len(o.vertices):
                             raise Inapplicable()
                         o.vertices[int(op["i"]) % len(o.vertices)] += float(op["d"])
+                    ctx.count("op:" + k)
+                elif k == "voxel_query":
+                    # a question that needs the inverse of the grid's transform (memoised from here on)
+                    if kind != "voxel":
+                        raise Inapplicable()
+                    for o in objs:
+                        if len(o.points):
+                            o.is_filled(np.array(o.points[:2]))
+                    ctx.count("op:" + k)
+                elif k == "apply_obb":
+                    # the object moves itself into the frame of its oriented box and says by which matrix: that matrix moved every point
+                    if kind not in ("mesh", "path2d") or not len(objs[0].vertices):
+                        raise Inapplicable()
+                    o = objs[0]
+                    prev = self._state(kind, o)
+                    try:
+                        Mo = np.asarray(o.apply_obb(), dtype=float)
+                    except (KeyboardInterrupt, SystemExit, MemoryError):
+                        raise
+                    except BaseException as e:
+                        ctx.count("exc:" + type(e).__name__)
+                        raise Inapplicable()
+                    after = self._state(kind, o)
+                    ctx.count("check:apply_obb")
+                    d_ = Mo.shape[0] - 1
+                    want = (Mo[:d_, :d_] @ np.asarray(prev["P"])[:, :d_].T).T + Mo[:d_, d_]
+                    sc_ = 1.0 + float(np.abs(want).max()) if want.size else 1.0
+                    if np.asarray(after["P"]).shape != want.shape or np.abs(np.asarray(after["P"])[:, :d_] - want).max() > 1e-9 * sc_:
+                        ctx.fail("model", kind + "-apply_obb", "the matrix apply_obb() returned is not the matrix that moved the points")
+                    # the replicas follow (their own oriented boxes are the same boxes)
+                    for oo in objs[1:]:
+                        try:
+                            oo.apply_transform(Mo)
+                        except (KeyboardInterrupt, SystemExit, MemoryError):
+                            raise
+                        except BaseException:
+                            pass
                     ctx.count("op:" + k)
                 elif k == "convert_unitless":
                     # an object that does not know its units is asked to convert them (no guessing requested): it must refuse,
@@ -487,6 +528,8 @@ class C04(World):
                 fail("transform", "VoxelGrid transform is not M . old")
             if same(a["dense"], b["dense"], 0, "dense") or a["shape"] != b["shape"]:
                 fail("encoding", "encoding changed by the transform")
+            if "own_cells" in a and (not a["own_filled"] or same(np.asarray(a["own_cells"]), np.asarray(a["cells"]), 0, "cells")):
+                fail("inverse", "after the transform the grid no longer finds its own cell centres in their cells (points_to_indices / is_filled)")
             if "corners" in b and "bounds" in a:
                 # the cells' box goes where M puts it: the grid's bounds are the bounds of its eight moved corners
                 moved = mx.apply(M, b["corners"])
